@@ -11,6 +11,7 @@ import (
 
 var _ = verifReg("C07cbor", VerifC07cbor)
 var _ = verifReg("C07json", VerifC07json)
+var _ = verifReg("C16json", VerifC07json)
 var _ = verifReg("C07new", VerifC07new)
 var _ = verifReg("C16reg", VerifC16reg)
 var _ = verifReg("C16fresh", VerifC16fresh)
@@ -250,6 +251,20 @@ func VerifC07json() {
 		buf = verifNativeJSON(psaKind, psa, eatKind, eatp)
 	}
 	c, err := DecodeClaimsFromJSON(buf)
+	if ndParam("twice", 0) == 1 {
+		// C16: the same outcome on every call, whatever order the register is iterated in
+		// (symbolic: every order of every range; native: many calls)
+		n := 1
+		if !ndSymbolic() {
+			n = 200
+		}
+		same := true
+		for i := 0; i < n; i++ {
+			c2, err2 := DecodeClaimsFromJSON(buf)
+			same = same && (err == nil) == (err2 == nil) && (err != nil || verifKind(c) == verifKind(c2))
+		}
+		ndAssert("c16-json-dispatch-same-outcome-on-every-call", same)
+	}
 	// verdicts (the property gives none for a member present under BOTH keys or for non-string values)
 	if psaKind == 0 && eatKind == 0 {
 		ndAssert("c07-json-no-profile-member-defaults-to-profile-1", (err == nil && verifKind(c) == 1) || (err != nil && verifStub.ndErr))
@@ -416,6 +431,7 @@ func VerifC16fresh() {
 		return
 	}
 	ndAssert("c16-distinct-instances", a != b)
+	ndAssert("c16-instances-share-no-memory", !ndShares(a, b))
 	pre := obsOf(b)
 	g := genSwComponent("sc", 4)
 	ndAssume(g.specValid())
